@@ -56,7 +56,16 @@ def format(sql, encoding=None, **options):
     options = formatter.validate_options(options)
     stack = formatter.build_filter_stack(stack, options)
     stack.postprocess.append(filters.SerializerUnicode())
-    return ''.join(stack.run(sql, encoding))
+    result = []
+    for text in stack.run(sql, encoding):
+        # Statements are joined without separator. That is fine after ';',
+        # but a statement ending with the batch separator GO (a word) must
+        # not run into the first word of the next statement.
+        if (result and text and result[-1][-1:].isalnum()
+                and (text[:1].isalnum() or text[:1] == '_')):
+            result.append('\n')
+        result.append(text)
+    return ''.join(result)
 
 
 def split(sql, encoding=None, strip_semicolon=False):
